@@ -85,6 +85,10 @@ def run(P, R, tier, cfg):
                             R.hold("a", "key function %s digests the whole fact store" % kf.short_name, fn=kf)
                         else:
                             R.violate("a", "memo-key-partial:%s" % kf.short_name, "the memo key function %s takes the facts but does not read their full contents" % kf.name, kf)
+                    # ... and must render every value injectively: the only thing done to a `Value` on the way into the key is
+                    # its Debug rendering (variant + content) or hashing/serialising the value itself
+                    if any("Facts" in kf.local_ty(i) for i in range(1, kf.argc + 1)):
+                        _key_injective(P, R, kf)
     R.count("memo_writes", n)
     if n < FLOORS["memo_writes"]:
         R.undecide("a", "floor", "no write to the query memo table found")
@@ -94,6 +98,37 @@ def run(P, R, tier, cfg):
             if c.name.endswith(("HashMap::insert", "HashMap::entry", "HashMap::extend")) and fn.name != GM + "::cache_result":
                 R.violate("a", "memo-writer:%s" % fn.name, "%s writes the memo table directly" % fn.name, fn, c.line)
     _scope(P, R)
+
+
+INJECTIVE_USES = ("Argument::new_debug", "Clone::clone", "Deref::deref", "Borrow::borrow", "AsRef::as_ref", "Hash::hash", "serde_json::to_string", "serde_json::to_value", "Serialize::serialize", "Debug::fmt", "mem::discriminant")
+
+
+def _key_injective(P, R, kf):
+    seen_value = 0
+    bad = []
+    for g in [kf] + list(P.closures_of(kf)):
+        for c in g.calls():
+            if c.bb not in g.normal_blocks():
+                continue
+            for a in c.args:
+                if a[0] not in "cm":
+                    continue
+                ty = A.place_type(g, a[1]) or ""
+                if ty.replace("&", "").replace("mut ", "").strip() != "types::Value":
+                    continue
+                seen_value += 1
+                nm = c.dname or c.name
+                if any(nm.endswith(u) or c.name.endswith(u) for u in INJECTIVE_USES):
+                    continue
+                bad.append((g, c, c.name))
+    if bad:
+        g, c, nm = bad[0]
+        R.violate("a", "memo-key-lossy:%s:%s" % (kf.short_name, nm.rsplit("::", 1)[-1]),
+                  "the memo key function %s passes fact values through %s before digesting them: values that the comparison operators distinguish (Integer(5), Number(5.0), String(\"5\")) get the same key, so a verdict memoised for one representation is replayed for another" % (kf.short_name, nm), g, c.line)
+    elif seen_value:
+        R.hold("a", "key function %s renders every fact value injectively (Debug / hash of the value itself; %d uses)" % (kf.short_name, seen_value), fn=kf)
+    else:
+        R.undecide("a", "memo-key-values:%s" % kf.short_name, "no use of a fact value found in the key function (cannot tell how values enter the key)", kf)
 
 
 def _same_key_fn(fn, a, b):
